@@ -155,6 +155,9 @@ static void shop(const Args& a, bool withmodel) {
   double rr0 = std::hypot(p, z), floorv = 1e-22 * (N + 2) * double(om.bound), floorg = 1e-22 * (N + 2) * (N + 2) * double(om.bound) / rr0;
   // the sums are accumulated multiplied by scale() = 2^-614: contributions below 2^-1074/scale() * q underflow (absolute floor 2^-450 max(q, 1))
   { double uf = std::ldexp(1.0, -450) * std::fmax(1.0, c.a / rr0); floorv += uf; floorg += uf * (N + 2) / rr0; }
+  // r, cos(theta), sin(theta) are themselves rounded: a relative perturbation of a few ulp of the point changes the value by |grad V| r eps
+  // (matters next to a zero of a single P_nm, where sum|terms| is itself tiny) and the gradient by its own derivative scale
+  floorv += 8 * 1.2e-16 * rr0 * gmag; floorg += 8 * 1.2e-16 * (N + 2) * gmag;
   if (withmodel) {
     std::string o2 = current_op();
     for (int l = 0; l < c.L; ++l) { o2 += " " + std::to_string(c.sets[size_t(l)].C.size()) + " " + std::to_string(c.sets[size_t(l)].S.size()); for (double d : c.sets[size_t(l)].C) o2 += " " + hx(d); for (double d : c.sets[size_t(l)].S) o2 += " " + hx(d); }
@@ -185,7 +188,8 @@ static void shop(const Args& a, bool withmodel) {
   }
   // circle of latitude = point evaluation (on the axis: longitude 0, as the point evaluation chooses)
   {
-    double ctol = (32 + 8.0 * (M + 1)) * 1.2e-16;
+    // cos/sin(m lambda) come from a recurrence in cos(lambda), sin(lambda): two legitimate roundings of lambda differ by O(m^2 eps); never looser than the tolerance against the defining sum
+    double ctol = std::fmin(rel, (32 + 2.0 * (M + 1) * (M + 1)) * 1.2e-16);
     chk("circle-vs-point", vc, (LD)v, mag, ctol, "Circle(gradp=false)(lon) vs operator()");
     chk("circle-vs-point", vcg, (LD)v, mag, ctol, "Circle(gradp=true)(lon) vs operator()");
     chk("circle-vs-point", cgx, (LD)gx, gmag, ctol, "circle gradx"); chk("circle-vs-point", cgy, (LD)gy, gmag, ctol, "circle grady"); chk("circle-vs-point", cgz, (LD)gz, gmag, ctol, "circle gradz");
